@@ -5,7 +5,7 @@
    Models: C04_Model.v (machine level: int64 arithmetic, nil dereference, the tiny code paths, the wide facade),
    LRUOps.v (ideal LRU: recency list + trim).  This file contains statements closed by `exact` only. *)
 From Coq Require Import ZArith List Lia Bool.
-Require Import LRU Shard LRUOps C04_Model C04_Refine C04_Wide C04_Theorems C04_Check.
+Require Import LRU Shard LRUOps C04_Model C04_Refine C04_Wide C04_Theorems C04_Check C04_Burst.
 Import ListNotations.
 Open Scope Z_scope.
 
@@ -132,6 +132,22 @@ Theorem c04_demo_schedule :
   merge [[Set_ 1 10 1; Get 2]; [Set_ 2 20 1; Get 1]] [0; 1; 1; 0]%nat = Some [Set_ 1 10 1; Set_ 2 20 1; Get 1; Get 2].
 Proof. exact demo_schedule. Qed.
 
+(* same-key bursts observed only at quiescence: for EVERY linearisation of the burst (every order of the issued calls:
+   set-like calls are the burst's writes, no Clear / SetCapacity, Delete only if the burst deletes, every write occurs) the
+   state the model reaches passes the quiescent-state monitor the driver evaluates on burst cases (no duplicate keys,
+   Length = len Keys, Size = sum of listed sizes <= Capacity, listed items were written, Exist / Peek agree with Items,
+   nothing evicted and nothing lost when the distinct keys written fit).  So a burst that fails the monitor has no
+   linearisation.  The writes the harness describes are well formed. *)
+Theorem c04_burst_every_linearisation : forall v W del univ cap0 ops,
+  cap_dom cap0 -> wfW W univ -> Forall op_dom ops -> Forall (lin_op v W del) ops -> complete W ops ->
+  let c := fst (mrun v (new_lru cap0) ops) in
+  burst_single_ok cap0 W del univ false
+    (map (fun k => (k, is_some (lookup k (lst c)), option_map valof (lookup k (lst c)))) univ) (snap_of c) = true.
+Proof. exact burst_every_linearisation. Qed.
+Theorem c04_burst_writes_wf : forall v univ sizes progs, NoDup univ -> Forall (fun z => 0 <= z) sizes ->
+  wfW (all_writes v 0 univ sizes progs) univ.
+Proof. exact all_writes_wf. Qed.
+
 (* non-vacuity: the hypotheses are satisfiable and the operations do evict (sized, tiny, wide) *)
 Theorem c04_demo_sized :
   let ops := [Set_ 1 10 2; Set_ 2 20 2; Get 1; Set_ 3 30 2; Peek 1; Exist 2; SetAndGetRemoved 1 11 4; Set_ 4 40 9; Set_ 5 50 1; Set_ 6 60 1;
@@ -183,6 +199,8 @@ Print Assumptions c04_wide_shard_bound.
 Print Assumptions c04_simple_route_in_range.
 Print Assumptions c04_every_schedule.
 Print Assumptions c04_demo_schedule.
+Print Assumptions c04_burst_every_linearisation.
+Print Assumptions c04_burst_writes_wf.
 Print Assumptions c04_demo_sized.
 Print Assumptions c04_demo_tiny.
 Print Assumptions c04_demo_wide.
